@@ -1,0 +1,27 @@
+//go:build verif
+
+// Contracts for parameter binding (properties C03, C07). Comment-only.
+
+package vgirpc
+
+// setFieldFromArrow reads element idx of col: the element must exist. (The body is a large
+// reflect-driven type switch outside the verifier's subset; only this precondition is used, at
+// call sites.)
+//
+//@ func setFieldFromArrow
+//@   requires 0 <= idx && idx < arrLen(col)
+
+// deserializeParams: no client-supplied batch makes it index an empty column (C03), and a
+// handler's parameters are bound only from a batch whose schema equals the declared one (C07).
+//
+//@ func deserializeParams
+//@   property C03, C07
+
+// resolveColumn: the column index it returns exists.
+//
+//@ func resolveColumn
+//@   property C03, C07
+//@   requires ord >= 0
+//@   modifies nothing
+//@   ensures result == -1 || (0 <= result && result < numCols(batch))
+//@   loop 0 invariant 0 <= ci && ci < n
